@@ -113,6 +113,13 @@ class Model:
             self.ret[("func", fn)] = "float"
             src.append("@func_adl_callable()")
             src.append(f"def {fn}({sig_text(params, self_=False)}) -> float: ...")
+        # a registered function whose processor hands back a NEW call node and whose result is a typed object: calls chained on
+        # the result are typed call sites too
+        lead = f"tml{self.id}"
+        lp = [("x", "float", E), ("n", "int", 2)]
+        self.funcs_typed = {lead: (lp, "Jet")}
+        src += ["import ast as _ast", "def _proc_new_node(s, a):", "    return s, _ast.Call(func=a.func, args=list(a.args), keywords=list(a.keywords))",
+                "@func_adl_callable(_proc_new_node)", f"def {lead}({sig_text(lp, self_=False)}) -> Jet: ..."]
         self.source = "\n".join(src) + "\n"
         self.ns = {}
         exec(compile(self.source, f"<typedmodel{self.id}>", "exec"), self.ns)
@@ -130,7 +137,7 @@ class Model:
     def cleanup(self):
         from func_adl import type_based_replacement as tbr
 
-        for fn in self.funcs:
+        for fn in list(self.funcs) + list(getattr(self, "funcs_typed", {})):
             tbr._global_functions.pop(fn, None)
         tbr._g_collection_classes.pop(self.ns.get("RegColl"), None)
 
